@@ -212,14 +212,15 @@ D_countvec == Alg(
   << St("n_gram_range", 2, << <<1, 1>>, <<2, 2>> >>, FALSE), St("document_frequency", 2, << <<3, 1>>, <<4, 2>> >>, FALSE) >>,
   {"fit", "fit_vocabulary"}, "", "countvec")
 
-Algs == {"kmeans", "dbscan", "optics", "gmm", "enet", "mtenet", "logistic", "mlogistic", "tweedie",
+\* "...32" = the same builder instantiated with f32 instead of f64
+Algs == {"kmeans", "kmeans32", "dbscan", "dbscan32", "tree32", "optics", "gmm", "enet", "mtenet", "logistic", "mlogistic", "tweedie",
          "svc", "svr", "tree", "gnb", "mnb", "ftrl", "plsreg", "plscan", "plscca", "tsne", "ica", "diffmap",
          "rpgauss", "rpsparse", "platt", "hier", "countvec"}
 
 Doc == [a \in Algs |->
-  CASE a = "kmeans" -> D_kmeans [] a = "dbscan" -> D_dbscan [] a = "optics" -> D_optics
+  CASE a \in {"kmeans", "kmeans32"} -> D_kmeans [] a \in {"dbscan", "dbscan32"} -> D_dbscan [] a = "optics" -> D_optics
     [] a = "gmm" -> D_gmm [] a \in {"enet", "mtenet"} -> D_enet [] a \in {"logistic", "mlogistic"} -> D_logistic
-    [] a = "tweedie" -> D_tweedie [] a = "svc" -> D_svc [] a = "svr" -> D_svr [] a = "tree" -> D_tree
+    [] a = "tweedie" -> D_tweedie [] a = "svc" -> D_svc [] a = "svr" -> D_svr [] a \in {"tree", "tree32"} -> D_tree
     [] a = "gnb" -> D_gnb [] a = "mnb" -> D_mnb [] a = "ftrl" -> D_ftrl [] a \in {"plsreg", "plscan", "plscca"} -> D_pls
     [] a = "tsne" -> D_tsne [] a = "ica" -> D_ica [] a = "diffmap" -> D_diffmap [] a \in {"rpgauss", "rpsparse"} -> D_rproj
     [] a = "platt" -> D_platt [] a = "hier" -> D_hier [] a = "countvec" -> D_countvec]
